@@ -103,6 +103,12 @@ func (c *Conn) ReadFrom(r io.Reader) (int64, error) {
 // Close closes the connection.
 // Any blocked Read or Write operations will be unblocked and return errors.
 func (c *Conn) Close() error {
+	// The per-URL buckets were created for this connection only: stop their drain loops.
+	for _, buckets := range c.LocalBuckets {
+		buckets.ReadBucket.Close()
+		buckets.WriteBucket.Close()
+	}
+
 	return c.conn.Close()
 }
 
